@@ -48,12 +48,16 @@ pub fn drain_letter(n: usize) -> char {
 }
 
 /// a sink that keeps what `write_to` wrote before it failed
-struct Keep(Arc<Mutex<Vec<u8>>>, usize);
+struct Keep(Arc<Mutex<Vec<u8>>>, usize, Arc<Mutex<usize>>);
 impl std::io::Write for Keep {
     fn write(&mut self, b: &[u8]) -> std::io::Result<usize> {
         // a writer may take fewer bytes than it is offered (a pipe, a socket, a fixed block size)
         let n = b.len().min(self.1);
         self.0.lock().unwrap().extend_from_slice(&b[..n]);
+        // what the sink was given before the library first went back to a connection that had nothing more
+        if !crate::script::PAUSE_SEEN.with(|p| p.get()) {
+            *self.2.lock().unwrap() += n;
+        }
         Ok(n)
     }
     fn flush(&mut self) -> std::io::Result<()> {
@@ -173,6 +177,9 @@ pub struct RespOut {
     pub ok_read_waited: Option<usize>,
     /// what `write_to` had written into the caller's sink when it returned an error
     pub partial: Vec<u8>,
+    /// `write_to`: how many bytes the caller's sink had been given when a read of the connection first met the
+    /// peer's silence (None: not a write_to case)
+    pub sink_before_pause: Option<usize>,
     /// the canonical line shows `o` for an Ok event, not its bytes (text family: the decoding is C18's business)
     pub mask_ok: bool,
 }
@@ -319,6 +326,7 @@ pub fn run_resp(case: &RespCase) -> RespOut {
         send_ok_waited: false,
         ok_read_waited: None,
         partial: vec![],
+        sink_before_pause: None,
         mask_ok: matches!(&case.reads, Reads::Drain(h) if is_text_drain(*h)),
     };
     let sent = catch_unwind(AssertUnwindSafe(|| {
@@ -479,10 +487,13 @@ pub fn run_resp(case: &RespCase) -> RespOut {
                     let nsegs = case.segs.len();
                     let kept = Arc::new(Mutex::new(vec![]));
                     let k2 = kept.clone();
+                    let before = Arc::new(Mutex::new(0usize));
+                    let before2 = before.clone();
+                    crate::script::PAUSE_SEEN.with(|p| p.set(false));
                     let r = catch_unwind(AssertUnwindSafe(move || match how {
                         DRAIN_WRITE_TO | DRAIN_WRITE_TO_SHORT => {
                             let per_call = if how == DRAIN_WRITE_TO { usize::MAX } else if nsegs % 2 == 0 { 1000 } else { 7 };
-                            let n = resp.write_to(Keep(k2.clone(), per_call))?;
+                            let n = resp.write_to(Keep(k2.clone(), per_call, before2.clone()))?;
                             let v = k2.lock().unwrap().clone();
                             if n as usize != v.len() {
                                 return Err(std::io::Error::new(std::io::ErrorKind::Other, format!("write_to returned {} for {} bytes written", n, v.len())).into());
@@ -510,6 +521,9 @@ pub fn run_resp(case: &RespCase) -> RespOut {
                         _ => resp.bytes(),
                     }));
                     out.partial = kept.lock().unwrap().clone();
+                    if how == DRAIN_WRITE_TO || how == DRAIN_WRITE_TO_SHORT {
+                        out.sink_before_pause = Some(*before.lock().unwrap());
+                    }
                     out.events.push(match r {
                         Err(_) => Ev::Panic,
                         Ok(Ok(bs)) => Ev::Ok(bs),
